@@ -18,6 +18,15 @@ import (
 	"verif/internal/model"
 )
 
+// Defects repaired in /repo (their exclusions / tolerances are switched off; the replays are regression cases):
+// 1 updateTSIDsForPrefix skipped the deleted filter, 5 pooled index searches kept a foreign deleted set,
+// 7 tag-filter cache not invalidated by DROP SERIES (class late-drop: a wrong read right after a drop fails at once).
+const (
+	fixedDefect1 = true
+	fixedDefect5 = true
+	fixedDefect7 = true
+)
+
 const prop = "C13"
 const campaign = "drop_histories"
 
@@ -421,7 +430,7 @@ func positiveOnly(p *Pred) bool {
 // selection that needs "all series of the measurement" (no tag filter, or a negative / empty-value filter) does
 // not subtract the deleted series.
 func (s *S) unreliable(r *ReadSpec) bool {
-	if s.noExcl || !s.tainted[r.NS+"|"+r.Mst] || (r.Kind != "rows" && r.Kind != "agg") {
+	if fixedDefect1 || s.noExcl || !s.tainted[r.NS+"|"+r.Mst] || (r.Kind != "rows" && r.Kind != "agg") {
 		return false
 	}
 	last := true // no greater measurement name was ever written into the namespace
@@ -468,6 +477,20 @@ func (s *S) keysKnown(n *nsState, mst string, p *Pred, group []string) bool {
 		}
 	}
 	return true
+}
+
+// logHoldsTrouble: a restart now would replay rows that (a) belong to a dropped series or (b) belong to a live
+// series that has an older dropped incarnation - both known findings (the replay allocates a fresh series id).
+func (s *S) logHoldsTrouble() bool {
+	if s.walHoldsDropped {
+		return true
+	}
+	for k := range s.unflushed {
+		if s.redropped[k] {
+			return true
+		}
+	}
+	return false
 }
 
 // reachesDetached: the drop selects a series with rows in a shard group whose index the deleted-series set is
@@ -557,8 +580,8 @@ func (s *S) check(reads []ReadSpec, when string, strict bool) {
 		s.alive("during a read")
 		first := d
 		t0 := time.Now()
-		if strict {
-			s.fail("%s: read %q differs from the model with the drops applied: %s%s", when, r.SQL(n), first, s.agreement(reads, i))
+		if strict || (fixedDefect7 && s.lastEvent == "drop") {
+			s.fail("%s: read %q differs from the model with the drops applied (no grace period: strict check or right after an acknowledged drop): %s%s", when, r.SQL(n), first, s.agreement(reads, i))
 		}
 		for d != "" {
 			if time.Since(t0) > s.grace {
@@ -1015,7 +1038,7 @@ func runHistory(t *rapid.T, c *ev.Case) {
 			kinds = append(kinds, "database", "database")
 		}
 		d := &Drop{Kind: rapid.SampledFrom(kinds).Draw(t, "dropKind")}
-		if mode == "db" && d.Kind == "series" {
+		if !fixedDefect5 && mode == "db" && d.Kind == "series" {
 			// known finding: series ids repeat between databases and a pooled index search keeps the deleted-id set
 			// of the index it served last, so a DROP SERIES in one database hides / spares series of the other one
 			c.Excluded("drop-series-while-a-second-database-exists")
@@ -1073,7 +1096,7 @@ func runHistory(t *rapid.T, c *ev.Case) {
 			if s.reachesDetached(d) {
 				// known finding: DROP SERIES does not reach shard groups created after the deleted-series index
 				c.Excluded("drop-series-reaching-a-shard-group-created-after-the-first-drop-or-start")
-				if s.walHoldsDropped {
+				if s.logHoldsTrouble() {
 					c.Excluded("restart-while-rows-of-a-dropped-series-are-only-in-the-log")
 					s.exec(Op{Kind: "flush"})
 				}
@@ -1166,7 +1189,7 @@ func runHistory(t *rapid.T, c *ev.Case) {
 	}
 	kill := func(t *rapid.T) {
 		op := Op{Kind: "kill", SettleMs: 6000}
-		if s.walHoldsDropped {
+		if s.logHoldsTrouble() {
 			// known finding: the log replay re-creates dropped series from their unflushed rows
 			c.Excluded("restart-while-rows-of-a-dropped-series-are-only-in-the-log")
 			s.exec(Op{Kind: "flush"})
@@ -1212,7 +1235,7 @@ func runHistory(t *rapid.T, c *ev.Case) {
 			reads(t, 3)
 		},
 		"restart": func(t *rapid.T) {
-			if s.walHoldsDropped {
+			if s.logHoldsTrouble() {
 				c.Excluded("restart-while-rows-of-a-dropped-series-are-only-in-the-log")
 				s.exec(Op{Kind: "flush"})
 			}
